@@ -1,5 +1,5 @@
 SPECIFICATION MSpec
-CONSTANTS MaxH = 4  Wrap = TRUE  LimD = 2  LimF = 2
+CONSTANTS MaxH = 4  Wrap = TRUE  LimD = 2  LimF = 2  OnlyIssued = FALSE
 CONSTRAINT Bounded
 INVARIANTS HandlesDistinct LimitsRespected NothingOnClosedVolume OpenFilesAreFiles NoFileOpenTwice OpenDirsAreDirs ReadOnlyUntouched NamesUniqueM
 VIEW mview
